@@ -149,6 +149,9 @@ pub fn explain(env: &Env, d: &D, v: &JsVal, mode: Mode, got: bool) -> Option<&'s
             b.unspec_as = completion;
             let m = r.member(d, v);
             let base = b.member(d, v);
+            if std::env::var("DEBUG_EXPLAIN").is_ok() {
+                eprintln!("explain quirk={} completion={:?} m={:?} base={:?} got={}", q, completion, m, base, got);
+            }
             if m != base && m == Tri::from_bool(got) {
                 return Some(q);
             }
